@@ -113,6 +113,8 @@ pub open spec fn tok_last_line_width(t: Token) -> nat {
 pub open spec fn last_small(v: Seq<Lex>) -> bool { v.len() > 0 ==> small(v.last().pos.end.pos) && small(v.last().pos.end.line) }
 /// the last lexeme of a batch (the real token) ends at the caret
 pub open spec fn last_at_caret(v: Seq<Lex>, s: State) -> bool { v.len() > 0 ==> v.last().pos.end == s.pos }
+/// ... and starts where the caret was before its first character was read
+pub open spec fn last_starts_at(v: Seq<Lex>, p: CaretPos) -> bool { v.len() > 0 ==> v.last().pos.start == p }
 pub open spec fn is_synthetic(t: Token) -> bool {
     t == Token::NL || t == Token::Indent || t == Token::Dedent
 }
@@ -560,7 +562,7 @@ pub proof fn lemma_char_step_is_advance(s0: State, c: char, r0: Seq<char>, s1: S
 pub fn verif_havoc_string_arm(c: char, it: &mut Peekable<Chars>, state: &mut State) -> (r: LexResult)
     requires wf(*old(state)), c == '"',
     ensures r is Ok ==> char_step(*old(state), c, rest(*old(it)), *final(state), rest(*final(it))), is_suffix(rest(*final(it)), rest(*old(it))),
-        r matches Ok(v) ==> last_at_caret(v@, *final(state)),
+        r matches Ok(v) ==> last_at_caret(v@, *final(state)) && last_starts_at(v@, old(state).pos),
 { unimplemented!() }
 
 /// outlines inside the string arm of into_tokens (A-STD / A-OUTLINE), text unchanged in /repo
@@ -639,7 +641,7 @@ pub proof fn lemma_string_token_advance(p: (int, int), s: Seq<char>)
         old(state).pos.line + tok_breaks(token) + 2 < 0x4000_0000, old(state).pos.pos + tok_width(token) + 4 < 0x4000_0000,
         tok_last_line_width(token) + 4 < 0x4000_0000, old(state).newlines@.len() < 0x4000_0000,
     ensures
-        r is Ok, wf(*final(state)), last_at_caret(r->Ok_0@, *final(state)),
+        r is Ok, wf(*final(state)), last_at_caret(r->Ok_0@, *final(state)), last_starts_at(r->Ok_0@, old(state).pos),
         token != Token::NL ==> caret_of(*final(state)) == span_end(old(state).pos, token),   //# caret_moves_over_the_token [C18]
         token == Token::NL ==> caret_of(*final(state)) == (old(state).pos.line + 1, 1int),   //# newline_token_moves_to_next_line [C18,C14]
         final(state).newlines@.len() <= old(state).newlines@.len() + 1,
@@ -651,7 +653,7 @@ pub proof fn lemma_string_token_advance(p: (int, int), s: Seq<char>)
         old(state).pos.line + 2 < 0x4000_0000, old(state).pos.pos + tok_width(token) + 4 < 0x4000_0000,
         old(state).newlines@.len() < 0x4000_0000,
     ensures
-        r is Ok, wf(*final(state)), last_at_caret(r->Ok_0@, *final(state)),
+        r is Ok, wf(*final(state)), last_at_caret(r->Ok_0@, *final(state)), last_starts_at(r->Ok_0@, old(state).pos),
         caret_of(*final(state)) == (old(state).pos.line as int, old(state).pos.pos + tok_width(token)),   //# caret_moves_by_token_width [C18]
         rest(*old(it)).len() > 0 ==> rest(*final(it)) == rest(*old(it)).drop_first(),
         rest(*old(it)).len() == 0 ==> rest(*final(it)) == rest(*old(it)),         //# exactly_one_more_character_is_read [C18]
@@ -694,6 +696,7 @@ pub proof fn lemma_string_token_advance(p: (int, int), s: Seq<char>)
         // C18 at character level: after each call the caret is exactly where reading the consumed characters puts it
         r is Ok ==> char_step(*old(state), c, rest(*old(it)), *final(state), rest(*final(it))),   //# caret_tracks_characters_read [C18,C14]
         r matches Ok(v) ==> last_at_caret(v@, *final(state)),                    //# last_span_ends_at_caret [C18]
+        r matches Ok(v) ==> last_starts_at(v@, old(state).pos),                  //# token_starts_at_the_position_of_its_first_character [C18]
 //@@ END
 //@@ ELSE
 #[verifier::loop_isolation(false)]
@@ -730,7 +733,7 @@ pub proof fn lemma_string_token_advance(p: (int, int), s: Seq<char>)
         is_suffix(rest(*final(it)), rest(*old(it))),                             //# only_reads_forward [C18]
         // C18 at character level: after each call the caret is exactly where reading the consumed characters puts it
         (c == '"' && r is Ok) ==> char_step(*old(state), c, rest(*old(it)), *final(state), rest(*final(it))),   //# caret_tracks_characters_read [C18,C14]
-        c == '"' ==> (r matches Ok(v) ==> last_at_caret(v@, *final(state))),                    //# last_span_ends_at_caret [C18]
+        c == '"' ==> (r matches Ok(v) ==> last_at_caret(v@, *final(state)) && last_starts_at(v@, old(state).pos)),                    //# last_span_ends_at_caret [C18]
 //@@ END
 //@@ ENDIF
 
